@@ -8,11 +8,11 @@
 package relaydrv
 
 import (
-	"os"
 	"context"
 	"errors"
 	"fmt"
 	"math/rand"
+	"os"
 	"runtime"
 	"sort"
 	"strings"
@@ -99,6 +99,9 @@ type session struct {
 	phase sync.Map
 	// fault sessions: the adaptation of the current scenario is wedged (a request never returned)
 	wedged bool
+	// fault sessions: what else counts as the text of a deliberate handler error; the caller has a deadline of its own
+	vetoText       string
+	callerDeadline bool
 	// plugins whose connection the runtime has closed (hook plugin.closed)
 	closedSeen sync.Map
 	// the last (released) sync block of each caller
